@@ -13,8 +13,12 @@ from ceos_alos2 import transformers as TR
 from ceos_alos2.sar_image import enums as E
 from ceos_alos2.sar_image import metadata as IM
 
+import construct as _c  # noqa: E402
+
 P = json.loads(os.environ.get("VH_PARAMS") or "{}")
 MAXLEN = P.get("maxlen", 5)
+# real adapter instances (the decode methods are instance methods; a refactoring may move shared code into base classes)
+_AI, _AF, _PS = D.AsciiInteger(8), D.AsciiFloat(8), D.PaddedString(8)
 # python's str.strip() whitespace that can occur in an ASCII-decoded field
 WS = " \t\n\r\x0b\x0c\x1c\x1d\x1e\x1f"
 
@@ -94,7 +98,7 @@ def ascii_int_ok(s: str) -> bool:
     pre: len(s) <= MAXLEN and all(ord(c) < 128 for c in s)
     post: _
     """
-    kind, got = _outcome(lambda: _with_number_stubs(lambda: D.AsciiInteger._decode(None, s, None, None)))
+    kind, got = _outcome(lambda: _with_number_stubs(lambda: _AI._decode(s, None, None)))
     t = _core(s)
     if t == "":
         return (kind == "value") & (got == -1) & isinstance(got, int)
@@ -106,7 +110,7 @@ def ascii_float_ok(s: str) -> bool:
     pre: len(s) <= MAXLEN and all(ord(c) < 128 for c in s)
     post: _
     """
-    kind, got = _outcome(lambda: _with_number_stubs(lambda: D.AsciiFloat._decode(None, s, None, None)))
+    kind, got = _outcome(lambda: _with_number_stubs(lambda: _AF._decode(s, None, None)))
     t = _core(s)
     return _parsed_like(kind, got, float, "float", "nan" if t == "" else t)
 
@@ -116,7 +120,7 @@ def padded_string_ok(s: str) -> bool:
     pre: len(s) <= MAXLEN and all(ord(c) < 128 for c in s)
     post: _
     """
-    got = D.PaddedString._decode(None, s, None, None)
+    got = _PS._decode(s, None, None)
     return (got == _core(s)) & isinstance(got, str)
 
 
@@ -130,13 +134,13 @@ def ascii_blank_ok(n: int, kind: int) -> bool:
     for ch in (" ", "\t", "\n"):
         s = ch * n
         if kind == 0:
-            got = D.AsciiInteger._decode(None, s, None, None)
+            got = _AI._decode(s, None, None)
             ok = ok & (got == -1) & isinstance(got, int)
         elif kind == 1:
-            got = D.AsciiFloat._decode(None, s, None, None)
+            got = _AF._decode(s, None, None)
             ok = ok & isinstance(got, float) & (got != got)
         else:
-            ok = ok & (D.PaddedString._decode(None, s, None, None) == "")
+            ok = ok & (_PS._decode(s, None, None) == "")
     return ok
 
 
@@ -145,11 +149,11 @@ def simple_adapters_ok(x: int, f: int, flag: int) -> bool:
     pre: 0 <= flag < 2**32
     post: _
     """
-    ok = (D.Factor._decode(_Fac(f), x, None, None) == x * f)
-    got = D.Metadata._decode(_Meta({"units": "m"}), x, None, None)
+    ok = (D.Factor(_c.Int32ub, f)._decode(x, None, None) == x * f)
+    got = D.Metadata(_c.Int32ub, units="m")._decode(x, None, None)
     ok = ok & isinstance(got, tuple) & (len(got) == 2) & (got[0] == x) & (got[1] == {"units": "m"})
-    ok = ok & (E.Flag._decode(None, flag, None, None) == (flag != 0))
-    ok = ok & (D.StripNullBytes._decode(None, b"\x00ab\x00\x00", None, None) == b"ab") & (D.StripNullBytes._decode(None, b"\x00\x00", None, None) == b"")
+    ok = ok & (E.Flag(4)._decode(flag, None, None) == (flag != 0))
+    ok = ok & (D.StripNullBytes(_c.Bytes(5))._decode(b"\x00ab\x00\x00", None, None) == b"ab") & (D.StripNullBytes(_c.Bytes(2))._decode(b"\x00\x00", None, None) == b"")
     return ok
 
 
